@@ -463,7 +463,9 @@ func (v *Val) hasNull() bool {
 
 var (
 	plainKeys   = []string{"a", "b", "c", "d", "id", "name", "x", "y"}
-	awkwardKeys = []string{"", "a/b", "~t", "0", "-", "ü", "k e", "a~1b", "1e3", "true", "null", "a.b", "\"q\"", "<<"}
+	awkwardKeys = []string{"", "a/b", "~t", "0", "-", "ü", "k e", "a~1b", "1e3", "true", "null", "a.b", "\"q\"", "<<",
+		// keys that differ only by zero padding, or that order differently as numbers and as strings
+		"7", "07", "007", "10", "6x", "1.1", "1.01", "v7", "v07", "9223372036854775808"}
 	plainStrs   = []string{"a", "b", "c", "foo", "bar", "x y", "50%"}
 	awkwardStrs = []string{"the quick brown fox jumps over the lazy dog and keeps on running far beyond the eightieth column of the page", "90%", "%s %d %v", "100%!", "line one\nline two\n", "tail\n", strings.Repeat("日本語のテキスト", 5), strings.Repeat("Привет мир ", 4), strings.Repeat("é", 70), "", "\"", "\\", "\n", "\t", "\u0001", "é", "日本", "😀", "<>&", "a\nb", "true", "1", "1e3", "~", "null", "- x", "a: b", "#", " lead", "trail ", "@ [", "+ 1", "^ {}", "next\u0085line", "del\u007f", "\u2028sep", "c1\u009f", "\ufffe", "bom\ufeff"}
 	symbols     = []float64{1, 2, 3}
@@ -504,7 +506,7 @@ func genCfg(c *Chooser) GenCfg {
 func genKey(c *Chooser, g GenCfg) string {
 	if c.Int(1000) < g.Awkward {
 		k := pickStr(c, awkwardKeys)
-		if !g.NumLikeKey && (k == "0" || k == "-" || k == "1e3") {
+		if !g.NumLikeKey && (k == "0" || k == "-" || k == "1e3" || k == "7" || k == "07" || k == "007" || k == "10" || k == "9223372036854775808") {
 			return "k" + k
 		}
 		return k
